@@ -216,12 +216,23 @@ def common_proof_part(res, pid, extra_targets=()):
                                         "log": out[-3000:]}
     n = len(rep["theorems"])
     bad_axioms = [a for a in rep["axioms"] if a not in ALLOWED_AXIOMS]
-    proof_ok = ok and rep["ok"] and not hy and not bad_axioms and n > 0 and rep["print_assumptions"] >= n
+    # the statements themselves are pinned (coq/props/pins.json, py/mkpins.py): a theorem is never quietly weakened or dropped
+    pin_bad = []
+    try:
+        sys.path.insert(0, os.path.join(VERIF, "py"))
+        import mkpins
+        pins = json.load(open(os.path.join(COQ, "props", "pins.json"))).get(pid, {})
+        cur = mkpins.statements(os.path.join(COQ, "props", pid + ".v"))
+        pin_bad = sorted(nm for nm in pins if cur.get(nm) != pins[nm])
+    except Exception as ex:
+        pin_bad = ["pins unreadable: %s" % ex]
+    proof_ok = ok and rep["ok"] and not hy and not bad_axioms and n > 0 and rep["print_assumptions"] >= n and not pin_bad
     res.coverage.update({
         "obligations": n, "discharged": n if proof_ok else 0,
         "checker_cmd": "make -C coq props/%s.vo (coq_makefile full build) && coqc props/%s.v (Print Assumptions re-read)" % (pid, pid),
         "trusted_base": TRUSTED_BASE, "theorems": rep["theorems"],
-        "axioms_reported": rep["axioms"], "closed_under_global_context": rep["closed"], "hygiene_hits": hy})
+        "axioms_reported": rep["axioms"], "closed_under_global_context": rep["closed"], "hygiene_hits": hy,
+        "statements_differing_from_their_pins": pin_bad})
     if proof_ok and res.tier == "thorough":
         # independent re-check of the compiled theorem file and everything it depends on
         rc, out = sh("coqchk -o -silent -Q theories IRC -Q proofs IRCP -Q props IRCProps IRCProps.%s" % pid, cwd=COQ, timeout=3000)
@@ -232,7 +243,7 @@ def common_proof_part(res, pid, extra_targets=()):
             proof_ok = False
             out = "coqchk: exit %d, axioms %s\n%s" % (rc, ax, out[-1000:])
     if not proof_ok:
-        res.proof_broken = {"build_ok": ok, "props_ok": rep["ok"], "hygiene": hy, "axioms": bad_axioms,
+        res.proof_broken = {"build_ok": ok, "props_ok": rep["ok"], "hygiene": hy, "axioms": bad_axioms, "pinned_statements_changed": pin_bad,
                             "log_tail": (out if not ok else rep["log"])[-1500:]}
     else:
         res.proof_broken = None
